@@ -110,6 +110,59 @@ fn check_desc(rep: &Report, c: &DescCase, thorough: bool, cen: &mut Census) {
 /// two nested context levels around the fragments of up to three nodes and around the macro
 /// fragments, in all four contexts: lift() succeeds iff lift_check() does, and the lifted policy has
 /// the truth table of the harness's own fold of the term (and / or / thresh over key, hash and lock atoms).
+/// Scripts built without local validation (from_ast) around the resource limits: conjunction chains
+/// of n keys. By literal Bitcoin numbers a chain executes n opcodes and needs n witness items, so in
+/// P2WSH it is within the limits iff n <= 100 (standard witness items; 201 opcodes come later) and in
+/// bare scripts iff n <= 201: lift() must refuse exactly the chains outside (an over-limit branch
+/// cannot be spent, so the policy would promise a spend that does not exist).
+fn lift_limit_ladder(rep: &Report) -> Census {
+    use crate::ast::{build, T};
+    use crate::keys::{KeyForm, PkEnv};
+    use miniscript::policy::Liftable;
+    let mut cen = Census::new();
+    let chain = |n: usize| -> T {
+        let pk = |i: usize| T::Check(Box::new(T::PkK(format!("K{}", i))));
+        let mut acc = pk(n);
+        for i in (1..n).rev() {
+            acc = T::AndV(Box::new(T::Verify(Box::new(pk(i)))), Box::new(acc));
+        }
+        acc
+    };
+    for n in [98usize, 99, 100, 101, 102, 199, 200, 201, 202, 203] {
+        let t = chain(n);
+        let env = PkEnv { form: KeyForm::Compressed };
+        if let Ok(ms) = build::<bitcoin::PublicKey, miniscript::Segwitv0>(&t, &env) {
+            *cen.entry("lift_ladder_terms").or_insert(0) += 1;
+            let want_err = n > 100;
+            let got_err = ms.lift().is_err();
+            // n = 100: Bitcoin Core does not count the witness script among the 100 items, the library
+            // does; refusing one chain too early is conservative and not C07's business
+            if want_err != got_err && n != 100 {
+                rep.violation(Violation {
+                    key: format!("C07|lift-ladder|segwitv0|{}", n),
+                    class: "lift-of-over-limit-script".into(),
+                    what: format!("lift() of a P2WSH conjunction of {} keys (needs {} witness items and {} opcodes; limits 100 and 201) {}", n, n, n, if got_err { "fails" } else { "succeeds" }),
+                    case: json!({"ctx": "segwitv0", "keys": n}),
+                });
+            }
+        }
+        if let Ok(ms) = build::<bitcoin::PublicKey, miniscript::BareCtx>(&t, &env) {
+            *cen.entry("lift_ladder_terms").or_insert(0) += 1;
+            let want_err = n > 201;
+            let got_err = ms.lift().is_err();
+            if want_err != got_err {
+                rep.violation(Violation {
+                    key: format!("C07|lift-ladder|bare|{}", n),
+                    class: "lift-of-over-limit-script".into(),
+                    what: format!("lift() of a bare conjunction of {} keys ({} opcodes; limit 201) {}", n, n, if got_err { "fails" } else { "succeeds" }),
+                    case: json!({"ctx": "bare", "keys": n}),
+                });
+            }
+        }
+    }
+    cen
+}
+
 fn lift_structure<Ctx: crate::terms::Cx>(rep: &Report, ctx: &'static str, n: usize, tap: bool) -> Census {
     use crate::ast::{build, walk, StrEnv, T};
     use crate::terms::{explore, Alphabet};
@@ -245,6 +298,7 @@ pub fn run(tier: Tier) -> i32 {
     rep.assume("RSM implements DESIGN.md Appendix A; witness existence judged under standardness flags over the caller's alphabet");
     let states = (u.segwit.count() + u.legacy.count() + u.tap.count()) as u64 + rep.get("rsm_states");
     let transitions = u.segwit.attempted + u.legacy.attempted + u.tap.attempted + rep.get("rsm_transitions");
+    rep.merge_counts(&lift_limit_ladder(&rep));
     rep.finish(
         states,
         transitions,
